@@ -185,6 +185,15 @@ Section svc.
       rewrite Heq in H. set_solver.
   Qed.
 
+  Lemma service_started_before_dependents w s :
+    reachable fx w g roots s ->
+    forall h1 t h2, hist s = h1 ++ ObStart t :: h2 ->
+    forall d deps, eff_dep g t d -> g !! d = Some (AService, deps) -> ObSucc d ∈ h1.
+  Proof.
+    intros Hr h1 t h2 Heq d deps Heff Hg.
+    by eapply (start_after_deps_ready fx w g roots s Hr h1 t h2 Heq d AService deps).
+  Qed.
+
   (* C20: an aggregate has a service behind it exactly when one of its dependencies has *)
   Theorem svc_behind_aggregate d deps :
     g !! d = Some (AAggregate, deps) -> (svc_behind d <-> exists x, x ∈ deps /\ svc_behind x).
